@@ -69,7 +69,12 @@ impl<'r> G<'r> {
     /// end of statement: newline, sometimes preceded by a trailing `// remark` (which is NOT a doc of the next line)
     fn end_stmt(&mut self) {
         if self.cfg.docs && self.no_trailing == 0 && self.rng.chance(1, 10) {
-            self.put(" // trailing remark");
+            // with and without a blank before the slashes
+            if self.rng.chance(1, 3) {
+                self.put("// trailing remark");
+            } else {
+                self.put(" // trailing remark");
+            }
             self.p.features.push("doc:trailing-comment-on-previous-line");
         }
         self.nl();
@@ -82,7 +87,9 @@ impl<'r> G<'r> {
             return out;
         }
         self.put("<");
-        let first_default = self.rng.range(0, n); // args from this index on have defaults
+        // defaults usually trail, but llvm-tblgen also accepts a defaulted argument before a required one
+        let first_default = self.rng.range(0, n);
+        let scattered = self.rng.chance(1, 3);
         for i in 0..n {
             if i > 0 {
                 self.put(", ");
@@ -93,7 +100,7 @@ impl<'r> G<'r> {
             self.put(" ");
             let name = self.fresh("p");
             let d = self.decl_here(&name, DeclKind::TemplateArg, vec![ty.render(), name.clone()], None, false);
-            let has_default = i >= first_default;
+            let has_default = if scattered { self.rng.chance(1, 2) } else { i >= first_default };
             if has_default {
                 self.put(" = ");
                 // earlier template arguments are in scope in the default
@@ -755,7 +762,7 @@ impl<'r> G<'r> {
         let s = self.pos();
         self.use_here(&m.name, m.decl, position);
         let name_end = self.pos();
-        let required = m.targs.iter().take_while(|a| !a.has_default).count();
+        let required = m.targs.iter().rposition(|a| !a.has_default).map(|i| i + 1).unwrap_or(0);
         let n = if m.targs.len() > required { self.rng.range(required, m.targs.len()) } else { required };
         if n > 0 {
             self.put("<");
